@@ -20,6 +20,7 @@ import (
 	"math"
 	"strings"
 	"time"
+	"unicode/utf8"
 
 	"github.com/google/pprof/profile"
 )
@@ -210,7 +211,8 @@ func (ut UnitType) findByAlias(alias string) *Unit {
 // specified alias. It returns nil if the unit with such alias is not found.
 func (ut UnitType) sniffUnit(unit string) *Unit {
 	unit = strings.ToLower(unit)
-	if len(unit) > 2 {
+	// Count characters, not bytes: "μs" is two characters but three bytes.
+	if utf8.RuneCountInString(unit) > 2 {
 		unit = strings.TrimSuffix(unit, "s")
 	}
 	return ut.findByAlias(unit)
